@@ -46,6 +46,9 @@ def run(ctx):
     d2_commit_counts(ctx, committer, all_appenders)     # D3
     f = c.methods['iterappend']
     d2_accumulator(ctx, f, committer, appenders)
+    if c.methods.get('append') is not None:
+        from .C09 import append_always_delegates
+        append_always_delegates(ctx, c.methods['append'], f, clause='D1')   # rejected calls raise: no shortcut around the checks
     ap = appenders[0]
     d3_appender_return(ctx, ap)
     d4_truncate(ctx, committer)
